@@ -1,7 +1,7 @@
 """C07 — summation generators compute exact sums within the promised basis and size."""
 import json
 
-from common import circ_from_json, circ_to_json, err_name
+from common import circ_from_json, circ_to_json, err_name, realize
 from props import gencommon as G
 
 RULE = ('parameter sets: generator kind (sum2/sum3 blocks, easy, n-bit counter in XAIG/AIG with enum and any-case string '
@@ -200,8 +200,52 @@ def expected_error(r):
     return False
 
 
+def gen_independent(rng, kind=None):
+    """operands are *distinct inputs* of a bare host, so every operand vector (all-ones included: the top carry)
+    occurs among the assignments; weights all equal or from a small set — the shapes where level bookkeeping
+    (sentinels, gaps, carries landing on an existing level) can go wrong"""
+    kind = kind or rng.choice(['add_sum_n_weighted_bits', 'add_sum_n_weighted_bits_naive', 'add_sum_n_weighted_bits_naive',
+                               'add_sum_n_bits', 'add_sum_n_bits_easy', 'add_sum_pow2_m1'])
+    n = rng.choice([1, 2, 2, 3, 4, 4, 5, 6, 7, 8, 8, 9])
+    host = realize({'gates': [[f'x{i}', 'INPUT', []] for i in range(n)], 'inputs': [f'x{i}' for i in range(n)],
+                    'outputs': [], 'blocks': []})
+    ops = [f'x{i}' for i in range(n)]
+    rng.shuffle(ops)
+    a = {}
+    if 'weighted' in kind:
+        mode = rng.choice(['equal', 'equal', 'two', 'ramp', 'gap'])
+        w0 = rng.choice([0, 0, 1, 3])
+        if mode == 'equal':
+            ws = [w0] * n
+        elif mode == 'two':
+            ws = [w0 + rng.choice([0, 1]) for _ in range(n)]
+        elif mode == 'ramp':
+            ws = [w0 + i // 2 for i in range(n)]
+        else:
+            ws = [w0 + rng.choice([0, 2, 5]) for _ in range(n)]
+        a['ins'] = [[w, l] for w, l in zip(ws, ops)]
+        a['basis'] = rng.choice(BASES[:3])
+    else:
+        a['ins'] = ops
+        a['big_endian'] = rng.random() < 0.4
+        if kind != 'add_sum_n_bits_easy':
+            a['basis'] = rng.choice(BASES[:3])
+    a = {k: v for k, v in a.items() if v is not None}
+    return {'op': 'gen', 'c': host, 'ctr': rng.randint(0, 3), 'name': kind, 'args': a}
+
+
 def search(ctx):
     rng = ctx.rng('search')
+    rng2 = ctx.rng('search-independent')
+    for k in range(ctx.scale(150, 2500)):
+        r = gen_independent(rng2)
+        ctx.case(json.dumps(['si', r['name'], r['args']]))
+        ctx.count('independent_operands')
+        res = G.py_gen(r)
+        if 'err' in res:
+            ctx.violation('sum.raises', f'{r["name"]} raised {res["err"]} on valid arguments {json.dumps(r["args"])[:200]}', input={'request': r})
+            continue
+        check_result(ctx, r, res['ok'])
     for k in range(ctx.scale(300, 5000)):
         r = gen_request(ctx, rng, big=False)
         ctx.case(json.dumps(['s', r['name'], r['args'], r['c']['gates']]))
